@@ -246,7 +246,7 @@ theorem stopped_no_more_launches (cfg : Cfg) (s : St) (o : Outcome) (hpc : s.pc 
 
 def cfgFixed : Cfg :=
   { retries := 3, dieAfter := false, prods := [⟨0, true, true⟩], pre := [],
-    guardNone := true, killOnSuicidePoll := true }
+    guardNone := true, killOnSuicidePoll := true, killAfterLaunch := true }
 
 private def it0 : Iter := { gap := [], s0 := [], s1 := [], s2 := [], s3 := [], s4 := [], out := .ok }
 
@@ -513,9 +513,11 @@ theorem kill_delay_pending_or_expired_after_notification (cfg : Cfg) (hd : cfg.d
 expires now (`die`) then after ANY continuation `h2` in which the engine thread takes two more sub-steps the cancel event
 is set - whatever the tasks do: a running task that never ends by itself (`Outcome.hang`) is killed, and no launch
 follows the expiry.
-PARTIAL: the expiry must not fall between the `_suicide` check at the start of a poll and its launch (`Pc.window`):
-there the code that exists launches a task nobody will kill (`Witness.C13.kill_delay_expiring_before_launch_…`);
-when the tasks end by themselves the window does not matter (`kill_delay_expiry_stops_when_tasks_end`). -/
+PARTIAL (this is the statement that also holds for the code BEFORE the third repair, `killAfterLaunch = false`): the
+expiry must not fall between the `_suicide` check at the start of a poll and its launch (`Pc.window`): there the code
+before the repair launches a task nobody will kill (`Witness.C13.kill_delay_expiring_before_launch_…`); when the tasks
+end by themselves the window does not matter (`kill_delay_expiry_stops_when_tasks_end`).  The full statement for the
+repaired code is `kill_delay_expiry_stops`. -/
 theorem kill_delay_expiry_stops_partial (cfg : Cfg) (hf : Fixed cfg) (h h2 : List Op)
     (ha : (exec cfg h).armed = true) (hw : (exec cfg h).pc.window = false) (hn : 2 ≤ engCount h2) :
     (exec cfg (h ++ Op.env .die :: h2)).cancel = true := by
@@ -531,6 +533,36 @@ theorem kill_delay_expiry_stops_partial (cfg : Cfg) (hf : Fixed cfg) (h h2 : Lis
   rcases rank_zero _ hz with h0 | h0
   · exact h0
   · exact hB.2.2.2.2.2.2 (Or.inr h0)
+
+/-- "… or the configured kill delay expires", full strength, for the code with the three repairs: for EVERY history `h`
+after which the timer is pending - wherever the engine thread stands, the window between the `_suicide` check of a poll
+and its launch included - if the delay expires now, then after ANY continuation in which the engine thread takes four
+more sub-steps the cancel event is set, whatever the tasks do: a task that never ends by itself is killed, also one
+that is launched right after the expiry. -/
+theorem kill_delay_expiry_stops (cfg : Cfg) (hf : Fixed3 cfg) (h h2 : List Op)
+    (ha : (exec cfg h).armed = true) (hn : 4 ≤ engCount h2) :
+    (exec cfg (h ++ Op.env .die :: h2)).cancel = true := by
+  have hB := invB_all cfg (h ++ Op.env .die :: h2)
+  obtain ⟨he, _⟩ := die_expired cfg (exec cfg h) ha (invK_all cfg h).2
+  have hr := expired_run3 cfg hf h2 _ he
+  have h4 := rank_le_four (step cfg (exec cfg h) (.env .die))
+  have hx : exec cfg (h ++ Op.env .die :: h2) = run cfg (step cfg (exec cfg h) (.env .die)) h2 := by
+    simp only [exec, run_append, run]
+  rw [hx] at hB ⊢
+  have hz : rank (run cfg (step cfg (exec cfg h) (.env .die)) h2) = 0 := by omega
+  rcases rank_zero _ hz with h0 | h0
+  · exact h0
+  · exact hB.2.2.2.2.2.2 (Or.inr h0)
+
+/-- … the notification precedes `run()`, the delay is configured: whatever happens in between (`h1`, no external kill
+needed), once the delay expires the engine stops within four sub-steps of its thread. -/
+theorem notified_before_run_then_delay_expires_then_stops (cfg : Cfg) (hf : Fixed3 cfg) (hd : cfg.dieAfter = true)
+    (h1 h2 : List Op) (ha : (exec cfg (Op.env .fin :: h1)).armed = true) (hn : 4 ≤ engCount h2) :
+    (exec cfg [Op.env .fin]).started = false ∧ (exec cfg [Op.env .fin]).armed = true ∧
+    (exec cfg ((Op.env .fin :: h1) ++ Op.env .die :: h2)).cancel = true := by
+  refine ⟨rfl, ?_, kill_delay_expiry_stops cfg hf _ h2 ha hn⟩
+  have := kill_delay_timer_armed_whether_or_not_started cfg hd [] (by simp [exec, run, alive, init])
+  simpa using this
 
 /-- … and for tasks that end by themselves, wherever the expiry falls: four sub-steps of the engine thread later the
 cancel event is set. -/
@@ -560,6 +592,14 @@ example : let h := [Op.env .fin, .eng .hang, .eng .hang, .eng .hang, .eng .hang,
     blocked (exec cfgKill h) = true ∧ (exec cfgKill h).armed = true ∧ (exec cfgKill h).execLog.length = 1 ∧
     (exec cfgKill (h ++ Op.env .die :: [.eng .hang, .eng .hang])).cancel = true ∧
     alive (exec cfgKill (h ++ Op.env .die :: [.eng .hang, .eng .hang, .eng .hang, .eng .hang])) = false := by decide
+
+example : Fixed3 cfgKill := ⟨⟨rfl, rfl⟩, rfl⟩
+
+/-- the expiry falls into the window, the task launched afterwards never ends by itself: killed at once, stopped -/
+example : let h := [Op.env .fin, .eng .hang, .eng .hang]
+    (exec cfgKill h).armed = true ∧ (exec cfgKill h).pc.window = true ∧
+    (exec cfgKill (h ++ Op.env .die :: [.eng .hang, .eng .hang, .eng .hang, .eng .hang])).cancel = true ∧
+    (exec cfgKill (h ++ Op.env .die :: [.eng .hang, .eng .hang, .eng .hang, .eng .hang])).execLog.length = 1 := by decide
 
 /-! ## Working directories of producers: staged-in inputs are not output -/
 
